@@ -181,7 +181,8 @@ pub fn run_check(prop_id: &str, tier: Tier, seed: u64, part_out: Option<&Path>, 
                     stats.abort_samples.first()
                 ));
             }
-            let stop = stats.failure.is_some();
+            // after a watchdog trip the remaining stages are not started: the spinning case threads would only starve them
+            let stop = stats.failure.is_some() || stats.timed_out.is_some();
             stage_stats.push(stats);
             if stop {
                 break;
